@@ -27,7 +27,8 @@
 (*   "keepts"   last_timepoint_us_ is not reset when a new record file starts                                     *)
 EXTENDS Integers, Sequences, FiniteSets, TLC
 
-CONSTANTS Threads, Bugs
+CONSTANTS Threads, Bugs,
+          Ghosts     \* TRUE: carry the filter-stability ghosts (model checking); FALSE: leave them out (trace validation)
 
 VARIABLES ctl,   \* [dir, en, up, infl, pc, op, ret]  controller-side flags: number of directories so far, is_enabled_, pipe
                  \*                                    initialised, committing_, controller pc, its pending setter, last result
@@ -135,10 +136,10 @@ C2(t) == /\ com[t].pc = "c2" /\ com' = [com EXCEPT ![t].pc = "c3"] /\ ctl' = [ct
 C3(t) == /\ com[t].pc = "c3" /\ com' = [com EXCEPT ![t].pc = IF ctl.en THEN "c4" ELSE "c5"] /\ UNCHANGED <<ctl, be, flt, gh>>
 Front(t, sz) ==        \* the three appends under the pipe lock: the record joins the stream
   /\ com[t].pc = "c4"
-  /\ LET r == com[t].r @@ [sz |-> sz, stab |-> TRUE, fs |-> flt.s, fx |-> flt.x] IN
+  /\ LET r == com[t].r @@ [sz |-> sz, stab |-> Ghosts, fs |-> IF Ghosts THEN flt.s ELSE "", fx |-> IF Ghosts THEN flt.x ELSE {}] IN
      /\ be' = [be EXCEPT !.pipe = Append(@, r)]
      /\ gh' = [gh EXCEPT !.acc[t] = Append(@, r.k)]
-  /\ com' = [com EXCEPT ![t].pc = IF "nowait" \in Bugs THEN "ret1" ELSE "c5"]
+  /\ com' = [com EXCEPT ![t].pc = IF "nowait" \in Bugs THEN "ret1" ELSE "c5", ![t].r = @ @@ [sz |-> sz]]
   /\ UNCHANGED <<ctl, flt>>
 C5(t) == /\ com[t].pc = "c5" /\ ctl' = [ctl EXCEPT !.infl = @ - 1]
          /\ com' = [com EXCEPT ![t].pc = IF com[t].r.k \in Range(gh.acc[t]) THEN "ret1" ELSE "ret0"] /\ UNCHANGED <<be, flt, gh>>
@@ -170,7 +171,7 @@ Proc ==       \* onBackendRecvRecord for the next framed record
      IN /\ be' = IF ok THEN [be EXCEPT !.bq = Tail(@), !.wc = Append(@, fr), !.lastts = r.ts, !.thrs = thrs2, !.names = names2, !.mods = mods2]
                  ELSE [be EXCEPT !.bq = Tail(@)]
         /\ gh' = [gh EXCEPT !.rej = IF ok THEN @ ELSE @ \cup {<<r.t, r.k>>},
-                            !.verd = @ \cup {[stab |-> r.stab, fs |-> r.fs, fx |-> r.fx, mod |-> r.mod, pass |-> ok]}]
+                            !.verd = IF Ghosts THEN @ \cup {[stab |-> r.stab, fs |-> r.fs, fx |-> r.fx, mod |-> r.mod, pass |-> ok]} ELSE @]
   /\ UNCHANGED <<ctl, com, flt>>
 BatchEnd ==   \* one write() of the cache; the size test follows the write, so a file ends on a batch boundary
   /\ be.st = "proc" /\ be.bq = <<>>
